@@ -97,7 +97,8 @@ fn size_strategy() -> BoxedStrategy<Option<Size>> {
 }
 
 fn enumerated_strategy(p: Profile) -> BoxedStrategy<Type> {
-    (1..7usize, proptest::option::of(0..7usize), 0..4u8, proptest::collection::vec(0..40i64, 7)).prop_map(move |(n, root, mode, nums)| {
+    let num = prop_oneof![4 => 0..40i64, 1 => proptest::sample::select(vec![127i64, 128, 255, 256, 257, 1000, 65535, 65536, 1 << 31, 1 << 40])];
+    (1..7usize, proptest::option::of(0..7usize), 0..4u8, proptest::collection::vec(num, 7)).prop_map(move |(n, root, mode, nums)| {
         let root = root.map(|r| (r % n) + 1); // 1..=n root items
         let mut items: Vec<(String, Option<i64>)> = (0..n).map(|i| (format!("e{i}"), None)).collect();
         match (p, mode) {
@@ -105,7 +106,7 @@ fn enumerated_strategy(p: Profile) -> BoxedStrategy<Type> {
                 // explicit numbers ascending in textual order
                 let mut acc = 0;
                 for (i, it) in items.iter_mut().enumerate() {
-                    acc += nums[i] % 5 + if i == 0 { 0 } else { 1 };
+                    acc += (if nums[i] < 40 { nums[i] % 5 } else { nums[i] }) + if i == 0 { 0 } else { 1 };
                     it.1 = Some(acc);
                 }
             }
@@ -137,11 +138,19 @@ fn enumerated_strategy(p: Profile) -> BoxedStrategy<Type> {
 fn leaf_strategy(p: Profile) -> BoxedStrategy<Type> {
     let named_bits = match p {
         Profile::Conformance => Just(Vec::<(String, u64)>::new()).boxed(),
-        Profile::Roundtrip => prop_oneof![4 => Just(vec![]), 1 => Just(vec![("bitA".to_string(), 0u64), ("bitB".to_string(), 3)])].boxed(),
+        Profile::Roundtrip => prop_oneof![
+            4 => Just(vec![]),
+            1 => Just(vec![("bitA".to_string(), 0u64), ("bitB".to_string(), 3)]),
+            1 => Just(vec![("bit-a".to_string(), 0u64), ("bitB".to_string(), 1), ("c".to_string(), 2), ("dd".to_string(), 7), ("e5".to_string(), 300), ("last-one".to_string(), 65536)]),
+        ].boxed(),
     };
     let named_nums = match p {
         Profile::Conformance => prop_oneof![6 => Just(Vec::<(String, i64)>::new()), 1 => Just(vec![("numA".to_string(), 1i64), ("numB".to_string(), 2)])].boxed(),
-        Profile::Roundtrip => prop_oneof![4 => Just(vec![]), 1 => Just(vec![("numA".to_string(), 1i64), ("numB".to_string(), 2)])].boxed(),
+        Profile::Roundtrip => prop_oneof![
+            4 => Just(vec![]),
+            1 => Just(vec![("numA".to_string(), 1i64), ("numB".to_string(), 2)]),
+            1 => Just(vec![("zero".to_string(), 0i64), ("minus-one".to_string(), -1), ("big".to_string(), 4294967296), ("n4".to_string(), 255), ("n5".to_string(), 256), ("lowest".to_string(), i64::MIN), ("highest".to_string(), i64::MAX)]),
+        ].boxed(),
     };
     prop_oneof![
         2 => Just(Type::Boolean),
@@ -323,7 +332,8 @@ pub fn default_literal(m: &Module, ty: &Type, salt: u64) -> Option<Lit> {
                 (None, Some(u)) => if u >= 0 { 0 } else { u },
                 (None, None) => (salt % 100) as i128,
             };
-            Some(Lit::Int(v))
+            // (asn1rs is a documented 64-bit design: literals stay within i64)
+            Some(Lit::Int(v.clamp(lb.unwrap_or(i64::MIN as i128).max(i64::MIN as i128), ub.unwrap_or(i64::MAX as i128).min(i64::MAX as i128))))
         }
         Type::Str { cs, size } => {
             let alpha: Vec<char> = match cs {
